@@ -72,7 +72,7 @@ def _k(tier):
 
 def _blocks(tier):
     bl = [("quartic", 2), ("quartic", 3), ("rosenbrock", 2), ("barrier", 2), ("cos1d", 1), ("radialquartic", 3),
-          ("multiwell", 2)]
+          ("multiwell", 2), ("softplus", 2)]
     if tier == "thorough":
         bl += [("quartic", 1), ("quartic", 5), ("quartic", 8)]
     return bl
@@ -131,6 +131,11 @@ def _problems(fam, n, seed):
         for sl, x0 in [("zero", [0.0, 0.0, 0.0]), ("atxp", d["xp"]), ("far", [2.0, -1.0, 1.5]),
                        ("small", [1e-3, -2e-3, 5e-4]), ("e1", [1.0, 0.0, 0.0])]:
             out.append(({"fam": "radialquartic", "basis": "-", "start": sl}, d, onp.array(x0, dtype=float)))
+    elif fam == "softplus":
+        d = {"c": onp.array([0.5, 0.25])}
+        for sl, x0 in [("flat-left", [-20.0, -20.0]), ("zero", [0.0, 0.0]), ("atmin", [0.0, math.log(0.25 / 0.75)]),
+                       ("right", [30.0, 5.0]), ("mixed", [-20.0, 30.0])]:
+            out.append(({"fam": "softplus", "basis": "-", "start": sl}, d, onp.array(x0)))
     elif fam == "multiwell":
         d = {"b": onp.zeros(2), "a": 2.0}
         for sl, x0 in [("barrier-jump", [1.0, 0.5]), ("origin", [0.0, 0.0]), ("off", [2.0, -1.0]), ("near", [0.3, 0.3]),
@@ -176,6 +181,12 @@ def _make_objective(fam, n):
 
         def params(d, old=False):
             return Objective.Params(bc_data=jnp.array(d["b"] + (0.01 if old else 0.0)), app_data=jnp.array(d["a"]))
+    elif fam == "softplus":
+        def f(x, p):
+            return jnp.sum(jnp.log(1.0 + jnp.exp(x))) - p[0] @ x
+
+        def params(d, old=False):
+            return Objective.Params(bc_data=jnp.array(d["c"] * (0.9 if old else 1.0)))
     elif fam == "barrier":
         def f(x, p):
             return 0.5 * jnp.sum((x - p[0]) ** 2) - p[3] * jnp.sum(jnp.log(1 - x ** 2))
@@ -213,7 +224,7 @@ def run_group(g, tier, seed, rec):
     rvalue, rgrad, rres = _ref(fam)
     obj = Objective.Objective(f, jnp.zeros(n), params(probs[0][1]))
     axes = _axes()
-    finite_everywhere = fam != "barrier"
+    finite_everywhere = fam not in ("barrier", "softplus")     # softplus: the naive floating-point evaluation overflows
     EPS = onp.finfo(float).eps
 
     banner = []
